@@ -3,7 +3,7 @@
 
 def replay_verbs(inputs, obl):
     sel = {'eval_dyad_take': '#', 'eval_dyad_drop': '_', 'eval_monad_first': '*', 'eval_monad_reverse': '|', 'eval_dyad_rotate': ':+',
-           'eval_dyad_split': ':#', 'finditer': '?'}
+           'eval_dyad_split': ':#', 'finditer': '?', '_e_dyad_integer_divide': ':%'}
     fn = obl.split('::')[1].split('#')[0].split('[')[0] if '::' in obl else ''
     tok = sel.get(fn)
     import numpy as np
@@ -47,6 +47,60 @@ def replay_verbs(inputs, obl):
             g = [x.tolist() if hasattr(x, 'tolist') else x for x in g]
         if g != want:
             problems.append(f"{src} -> {g!r}, the reference prescribes {want!r}")
+    # grids against independent oracles written from the reference sentences (plus the solver's own count/size when it gave one)
+    def lit(v):
+        if isinstance(v, list):
+            return '[' + ' '.join(lit(x) for x in v) + ']'
+        return f"({v})" if isinstance(v, int) and v < 0 else str(v)
+
+    def norm(g):
+        g = g.tolist() if hasattr(g, 'tolist') else g
+        if isinstance(g, list):
+            g = [norm(x) for x in g]
+        return g
+    extra = [v for v in inputs.values() if isinstance(v, int) and -50 <= v <= 50] if isinstance(inputs, dict) else []
+    counts = sorted(set(list(range(-9, 10)) + extra))
+    grid = []
+    for n in range(0, 6):
+        b = list(range(1, n + 1))
+        for a in counts:
+            if tok in (None, '#') and b:
+                grid.append((f"{lit(a)}#{lit(b)}", [b[i % n] for i in range(a)] if a >= 0 else [b[(i + a) % n] for i in range(-a)]))
+            if tok in (None, '_'):
+                grid.append((f"{lit(a)}_{lit(b)}", b[a:] if a >= 0 else (b[:n + a] if -a < n else [])))
+            if tok in (None, ':+') and n > 0:
+                r = [None] * n
+                for i in range(n):
+                    r[(i + a) % n] = b[i]
+                grid.append((f"{lit(a)}:+{lit(b)}", r))
+            if tok in (None, ':#') and a > 0 and n > 0:
+                grid.append((f"{lit(a)}:#{lit(b)}", [b[j:j + a] for j in range(0, n, a)]))
+    if tok in (None, ':#'):
+        for sizes in ([2, 3], [1, 2, 3], [3, 1], [2, 2], [1, 1, 4]):
+            for n in range(1, 12):
+                b = list(range(n))
+                want, q, p = [], 0, 0
+                while q < n:
+                    want.append(b[q:q + sizes[p]])
+                    q += sizes[p]
+                    p = (p + 1) % len(sizes)
+                grid.append((f"{lit(sizes)}:#{lit(b)}", want))
+    if tok is None or 'integer_divide' in obl:
+        for x in counts:
+            for y in counts:
+                if y != 0:
+                    q = abs(x) // abs(y)
+                    grid.append((f"{lit(x)}:%{lit(y)}", q if (x >= 0) == (y > 0) else -q))
+    for src, want in grid:
+        try:
+            got = norm(k(src))
+        except Exception as e:
+            problems.append(f"{src} raised {type(e).__name__}: {e} (reference: {want})")
+            continue
+        if got != want:
+            problems.append(f"{src} -> {got!r}, the reference prescribes {want!r}")
+        if len(problems) > 3:
+            break
     if problems:
         return dict(confirmed=True, detail='; '.join(problems[:4]))
-    return dict(confirmed=False, detail='scripted verb applications agree with the reference')
+    return dict(confirmed=False, detail=f"scripted verb applications and {len(grid)} grid cases agree with the reference")
